@@ -11,7 +11,8 @@ use crate::types::DataValue;
 pub fn rules() -> Vec<Rewrite> { vec![
     // NOTE: rules must hold for NULL operands as well. `x * 0 => 0`, `x - x => 0`, `x = x => true`
     // (and the other comparisons of an expression with itself), `null and x => null` and
-    // `null or x => null` do not, and have been removed.
+    // `null or x => null` do not, and have been removed; so has `if (not c) a b => if c b a`
+    // (a NULL condition selects the else branch on both sides).
     rw!("add-zero";  "(+ ?a 0)" => "?a"),
     rw!("add-comm";  "(+ ?a ?b)" => "(+ ?b ?a)"),
     rw!("add-assoc"; "(+ ?a (+ ?b ?c))" => "(+ (+ ?a ?b) ?c)"),
@@ -87,7 +88,6 @@ pub fn rules() -> Vec<Rewrite> { vec![
 
     rw!("if-false";  "(if false ?then ?else)" => "?else"),
     rw!("if-true";   "(if true ?then ?else)" => "?then"),
-    rw!("if-not";    "(if (not ?cond) ?then ?else)" => "(if ?cond ?else ?then)"),
 
     rw!("avg";       "(avg ?a)" => "(/ (sum ?a) (count ?a))"),
 
